@@ -373,6 +373,28 @@ class Guest(object):
                 names[line.name] = names.get(line.name, 0) + 1
         return names
 
+    def undecodable_delay_slot(self, code):
+        """delay-slot architectures: is there a branch whose delay slot miasm cannot decode?  The branch
+        then cannot be executed as the processor does (the property quantifies over decodable instructions)"""
+        from miasm.core.bin_stream import bin_stream_str
+        if not getattr(self.machine.mn, "delayslot", 0):
+            return False
+        bs = bin_stream_str(code, base_address=0)
+        attrib = self.machine.dis_engine(bs, loc_db=self.loc_db).attrib
+        off, after_branch = 0, False
+        while off < len(code):
+            try:
+                ins = self.machine.mn.dis(bs, attrib, off)
+            except Exception:
+                if after_branch:
+                    return True
+                after_branch = False
+                off += 4
+                continue
+            after_branch = bool(ins.breakflow())
+            off += ins.l
+        return False
+
     def disassembly(self, code, limit=200):
         """text of the loaded function as miasm decodes it (witness only)"""
         from miasm.core.bin_stream import bin_stream_str
